@@ -71,21 +71,22 @@ def param_obj():
 
 
 def sv_wrong_type(self, value):
-    return self.dtype is not None and value is not None and not isinstance(value, self.dtype) \
-        and not (self.dtype is Path and isinstance(value, str))
+    # one fork (dtype declared or not); the rest is evaluated without forking
+    return self.dtype is not None and all_of(value is not None, not isinstance(value, self.dtype),
+                                             not all_of(self.dtype is Path, isinstance(value, str)))
 
 
 def sv_post(self, config, result):
     """the value is the declaring config's entry if there is one, else the default; it has the declared type"""
     expected = config[self.name_in_config] if self.name_in_config in config else self.default
-    return result == expected and self._value == expected and not sv_wrong_type(self, expected) \
-        and (self.name_in_config in config or self.default is not None)
+    return all_of(result == expected, self._value == expected, not sv_wrong_type(self, expected),
+                  any_of(self.name_in_config in config, self.default is not None))
 
 
 def sv_raises(self, config, raised):
     """construction fails (ValueError) exactly when a required value is missing or a value has the wrong type"""
-    missing = self.name_in_config not in config and self.default is None
-    return raised == 'ValueError' and (missing or sv_wrong_type(self, config[self.name_in_config] if self.name_in_config in config else self.default))
+    missing = all_of(self.name_in_config not in config, self.default is None)
+    return raised == 'ValueError' and any_of(missing, sv_wrong_type(self, config[self.name_in_config] if self.name_in_config in config else self.default))
 
 
 CONTRACTS += [
